@@ -22,7 +22,7 @@ import (
 const c18Fix = "/repo/fixtures/certs/"
 
 type c18Env struct {
-	pairFails, x509PairFails, ecMarshalFails, readFails bool
+	pairFails, x509PairFails, ecMarshalFails, readFails, noPEM bool
 	theCert                                           tls.Certificate
 	added                                             map[*x509.CertPool][]*x509.Certificate
 	appended                                          map[*x509.CertPool]int
@@ -66,7 +66,7 @@ func c18Stubs(e *c18Env) {
 	})
 	zv.Stub("(*crypto/x509.CertPool).AppendCertsFromPEM", func(p *x509.CertPool, b []byte) bool {
 		e.appended[p]++
-		return true
+		return !e.noPEM
 	})
 }
 
@@ -130,9 +130,15 @@ func VerifC18Options() {
 	switch caForm {
 	case 1:
 		opts.CA = c18Fix + "myCA.crt"
-		if zv.Choose("readFails", 2) == 1 {
+		switch zv.Choose("ca-file", 3) {
+		case 1:
 			e.readFails, expectCAErr = true, true
 			opts.CA = c18Fix + "does-not-exist.crt"
+		case 2:
+			// readable, but holds no certificate: nothing is added to the roots,
+			// which must still be the supplied (here: empty) set, never the system pool
+			e.noPEM = true
+			opts.CA = c18Fix + "myclient.key"
 		}
 	case 2:
 		if sym {
